@@ -104,6 +104,9 @@ func runOne(t *testing.T, p *Profile, ch *rep.Chooser, fixedCfg *Config, events 
 			}
 			x := &Exec{W: w, M: NewModel(cfg), Chans: p.Chans, SkipDeadRelays: p.SkipDeadRelays}
 			cur = x
+			if p.Tags != nil {
+				x.Select = func(tag string) bool { return p.Tags[tag] }
+			}
 			defer func() {
 				rp.Events = x.Events
 				rp.Trace = x.Trace
